@@ -601,4 +601,50 @@ theorem resolver_package_layer_is_newest (layers : List String) (e0 : Env) (es :
     sorterIdx layers (pkgLayer layers es e0.intro) = envMax layers (e0 :: es) := by
   rw [pkgLayer_idx]; rfl
 
+/-! ## Part 8 — store read faults in the coalesce state -/
+
+/-- `index_store_fault_fails`: for ALL layer lists and ALL outcomes of the store reads of `coalesce` (per
+    ecosystem and layer; `none` = `PackagesByLayer` / `DistributionsByLayer` / `RepositoriesByLayer` /
+    `FilesByLayer` returned an error): one failed read makes the Index call fail — no report is finished
+    from partial artifacts (e.g. without the whiteouts of a layer). -/
+theorem index_store_fault_fails (layers : List String) (reads : List (Kind × List (Option Layer)))
+    (h : ∃ kr ∈ reads, none ∈ kr.2) : indexCoalesceReads layers reads = none := by
+  have hall : ∀ {α : Type} (l : List (Option α)), none ∈ l → allSome l = none := by
+    intro α l
+    induction l with
+    | nil => simp
+    | cons o l ih =>
+      intro hm
+      cases o with
+      | none => rfl
+      | some x =>
+        have : none ∈ l := by simpa using hm
+        simp [allSome, ih this]
+  have hp : packReads reads = none := by
+    induction reads with
+    | nil => obtain ⟨kr, hkr, _⟩ := h; simp at hkr
+    | cons kr rest ih =>
+      obtain ⟨k, rs⟩ := kr
+      obtain ⟨kr', hm, hn⟩ := h
+      simp only [packReads]
+      rcases List.mem_cons.1 hm with h1 | h1
+      · subst h1; rw [hall rs hn]
+      · rw [ih ⟨kr', h1, hn⟩]; cases allSome rs <;> rfl
+  simp [indexCoalesceReads, hp]
+
+/-- … and when every read succeeds the result is the coalesce step on exactly what was read: a finished
+    report never comes from anything but the complete artifacts. -/
+theorem index_store_reads_ok (layers : List String) (ecos : List (Kind × List Layer)) :
+    indexCoalesceReads layers (ecos.map fun ka => (ka.1, ka.2.map some)) = indexCoalesce layers ecos := by
+  have hall : ∀ {α : Type} (l : List α), allSome (l.map some) = some l := by
+    intro α l
+    induction l with
+    | nil => rfl
+    | cons x l ih => simp [allSome, ih]
+  have hp : packReads (ecos.map fun ka => (ka.1, ka.2.map some)) = some ecos := by
+    induction ecos with
+    | nil => rfl
+    | cons ka rest ih => simp [packReads, hall, ih]
+  simp [indexCoalesceReads, hp]
+
 end ClairModel.Props.C01
